@@ -103,6 +103,21 @@ func ExploreFrom(start []int, startDevs int, bound int, maxExec int64, stop func
 			}
 		}
 	}
+	if start == nil {
+		// determinism self-test: the default execution, run twice, must make the same choice points
+		a, b := &MC{}, &MC{}
+		body(a)
+		body(b)
+		st.Executions += 2
+		if len(a.Trace) != len(b.Trace) {
+			panic("mc: harness is not deterministic (the default execution has a different number of choice points when repeated)")
+		}
+		for i := range a.Trace {
+			if a.Trace[i].N != b.Trace[i].N || a.Trace[i].Label != b.Trace[i].Label {
+				panic("mc: harness is not deterministic (choice point " + a.Trace[i].Label + " differs when the default execution is repeated)")
+			}
+		}
+	}
 	rec(start, startDevs)
 	return st
 }
